@@ -208,7 +208,14 @@ func crashHistory(rep *Report, m *model.Client, cfg engine.Config, ops []engine.
 	e.Close()
 	rep.Traces++
 	if len(e.Failures) > 0 {
+		// the committed state is wrong already without a crash (a Commit that returned success is not what later
+		// transactions and a reopened file see): the crash images have no reference state to be compared with
 		rep.count("history-with-oracle-failures", 1)
+		if only == nil {
+			rep.violate(Violation{Kind: "oracle", Sig: "no-crash/" + failSig(e.Failures[0]),
+				Detail: fmt.Sprintf("without any crash: %s on %s; history: %s", e.Failures[0], cfg, trunc(opKinds(ops), 600)),
+				Replay: histReplay{Config: cfg, Ops: ops, Failures: e.Failures, Seed: hseed, Mode: "c01-no-crash"}})
+		}
 		return
 	}
 	ps := int(cfg.PageSize)
